@@ -413,6 +413,15 @@ func ruleC02R3(r *Run) {
 				r.OK(construct, cs.Instr.Pos(), "forwarding adapter: the literal is itself installed as a callback value and judged at its call site")
 				continue
 			}
+			// the same adapter as a method of a function type (`type tbAction func(TB)`; `tbAction(m).run` as method value):
+			// it calls its receiver with its own parameter, is never called directly, only installed as a value
+			if fn.Parent() == nil && len(fn.Params) == 2 && tArg == ssa.Value(fn.Params[1]) && countDyn(p, fn) == 1 &&
+				p.resolve(cs.Common.Value) == ssa.Value(fn.Params[0]) {
+				if info := p.callerIndex()[fn]; info != nil && info.valueUse && len(info.sites) == 0 {
+					r.OK(construct, cs.Instr.Pos(), "forwarding adapter: a method of a function type that calls its receiver with its own parameter; it is only installed as a callback value and judged at its call site")
+					continue
+				}
+			}
 			// (a) in a bracket on the same T
 			inBracket := false
 			for _, b := range bs {
